@@ -132,7 +132,8 @@ AppendChar ==
   /\ UNCHANGED <<vSib, vTitle, vUse, vRoot, vSlots>>
 
 SibCases(n) ==
-  LET ms == MinColliders(n) \cup {m \in PairNames : Len(m) <= 1 /\ Len(n) <= 1 /\ m # n}
+  LET ms == (IF Len(n) <= 2 THEN MinColliders(n) ELSE {})
+            \cup {m \in PairNames : Len(m) <= 1 /\ Len(n) <= 1 /\ m # n}
   IN UNION {{ [names |-> <<n, m>>, req |-> <<>>],
               [names |-> <<n>>, req |-> <<m>>],
               [names |-> <<n, m>>, req |-> <<n, m>>] } : m \in ms}
@@ -175,7 +176,8 @@ ExportName ==
       text  == IF \A j \in 1..Len(atoms) : IsAsciiAtom(atoms[j]) THEN flat ELSE ""
       paired == vName \in PairNames
   IN [t |-> "name", name |-> vName, out |-> items, flat |-> flat, cs |-> cs, text |-> text,
-      ok |-> R_C12_attr(cs, text, TRUE), clause |-> AttrClause(cs, text, TRUE),
+      srcok |-> Len(vName) > 0,     \* an empty JSON name is replaced by the attribute name
+      ok |-> R_C12_attr(cs, text, Len(vName) > 0), clause |-> AttrClause(cs, text, Len(vName) > 0),
       bad |-> BadClasses(cs),
       xcheck |-> (AsciiVocab(vName) => AttrName(FlatSeq(vName)) = flat),
       paired |-> paired,
@@ -208,7 +210,10 @@ ExportTitle ==
 
 ExportDoc ==
   LET d == ParseDocC(vRoot, vSlots)
-      all == [j \in 1..Len(d.seen) |-> ClassRec(d.seen[j])]
+      reach == {d.cls[j][2].uid : j \in 1..Len(d.cls)} \cup {d.mid[j][2].uid : j \in 1..Len(d.mid)}
+                 \cup {d.root.uid}
+      kept == SelectSeq(d.seen, LAMBDA c : c.uid \in reach)   \* a class registered but replaced
+      all == [j \in 1..Len(kept) |-> ClassRec(kept[j])]       \* by an equal one is unreachable
   IN [t |-> "doc", root |-> vRoot, slots |-> vSlots,
       cls |-> [j \in 1..Len(d.cls) |-> [slot |-> d.cls[j][1], name |-> d.cls[j][2].name,
                                         uid |-> d.cls[j][2].uid]],
